@@ -29,7 +29,7 @@ def main():
         sys.exit(mod.replay(json.load(open(a.replay))))
     res = common.Result(a.property, a.tier, seed)
     if not a.no_build:
-        ok, log = common.ensure_built()
+        ok, log = common.ensure_built(a.property)
         if not ok:
             res.violation("proof", "the Coq development does not build: " + log[-1500:], {"build_log": log[-3000:]})
     res.audit = common.audit_property(a.property)
